@@ -9,14 +9,14 @@
 //                                          with the given hash list; second call with an empty
 //                                          list -> "r1 r2 inCheck nLegal hash hmc"
 //   S nmoves m1 .. mk | fen                EngineControl::setupPosition
-//                                          -> "size hmc | list | h0 z0 h1 z1 .. (steps)"
+//                                          -> "size hmc | list | h0 z0 h1 z1 .. (steps, plain makeMove) | same with e.p. fix-up"
 //   M fen                                  Game::insufficientMaterial after "setpos fen" -> 0|1 state
 // Game object (HumanPlayer x 2) and ComputerPlayer::canClaimDraw:
 //   gnew | gsetpos fen | gplay uci | gcmd <raw command string>
 //   gdraw rep|50|offer [uci]               "draw rep <SAN>" etc.
 //   gstate                                 -> state pending haveOffer currentMove hmc inCheck nLegal hash | fen
 //   gmoves                                 -> uci:hmcAfter ...
-//   gafter uci                             -> hmc inCheck nLegal hash | fen    (after move + e.p. fix-up)
+//   gafter uci                             -> hmc inCheck nLegal hash | fen | hash before e.p. fix-up
 //   ghist                                  -> hashes of Game::getHistory
 //   gclaim uci                             -> ComputerPlayer::canClaimDraw string (or "-")
 #include <cstdio>
@@ -196,9 +196,9 @@ int main() {
             }
             Position pos = TextIO::readFEN(fen);
             std::vector<Move> moves;
-            std::ostringstream steps;
+            std::ostringstream steps, stepsFixed;
             {
-                Position p(pos);
+                Position p(pos), q(pos);     // p: plain makeMove; q: with e.p. fix-up after every move
                 UndoInfo ui;
                 for (int i = 0; i < k; i++) {
                     Move m;
@@ -207,14 +207,17 @@ int main() {
                     int pc = p.getPiece(m.from());
                     bool zeroing = (p.getPiece(m.to()) != Piece::EMPTY) || pc == Piece::WPAWN || pc == Piece::BPAWN;
                     steps << ' ' << hex(p.zobristHash()) << ' ' << (zeroing ? 1 : 0);
+                    stepsFixed << ' ' << hex(q.zobristHash()) << ' ' << (zeroing ? 1 : 0);
                     moves.push_back(m);
                     p.makeMove(m, ui);
+                    q.makeMove(m, ui);
+                    TextIO::fixupEPSquare(q);
                 }
             }
             ec->setupPosition(pos, moves);
             os << ec->posHashListSize << ' ' << ec->pos.getHalfMoveClock() << " |";
             for (int i = 0; i < ec->posHashListSize; i++) os << ' ' << hex(ec->posHashList[i]);
-            os << " |" << steps.str();
+            os << " |" << steps.str() << " |" << stepsFixed.str();
         } else if (cmd == "M") {
             std::string fen = restOfLine(is);
             Game g(std::unique_ptr<Player>(new HumanPlayer()), std::unique_ptr<Player>(new HumanPlayer()));
@@ -270,8 +273,9 @@ int main() {
             else {
                 UndoInfo ui;
                 pos.makeMove(m, ui);
+                U64 raw = pos.zobristHash();          // as Position::makeMove leaves it
                 TextIO::fixupEPSquare(pos);
-                os << posInfo(pos);
+                os << posInfo(pos) << " | " << hex(raw);
             }
         } else if (cmd == "ghist") {
             std::vector<Position> hist;
